@@ -295,4 +295,4 @@ def strategy(draw, max_loci=60):
 
 def subchecks(tier):
     return [Sub("matching", matching_case, strategy=(lambda: strategy(60)) if tier == "quick" else (lambda: strategy(200)),
-                n_quick=600, n_thorough=8000, shards_quick=4, budget_quick=200.0)]
+                n_quick=600, n_thorough=20000, shards_quick=4, budget_quick=200.0)]
